@@ -210,17 +210,62 @@ Definition qjoint (fs : list factor) (a : list vec) : Q :=
    recording sampler returns *)
 Record rnd := mkR { r_vec : vec; r_logu : Q; r_acc : Z }.
 
-Inductive kind := KRec | KMH | KDirect | KNuts.
-Record sst := mkS { s_kind : kind; s_pt : vec; s_cache : Q; s_scale : Q; s_acc : list Z;
+(* KRec/KMH/KDirect/KNuts: the harness's samplers (see above; KNuts = HybridGibbs' NUTS branch).
+   KOpq: a real sampler that caches evaluations of its target (MH, CWMH, MALA, ULA, PCN, NUTS goes through KNuts): the move
+         itself is not modelled (the observed next point is replayed) but the cached values are part of the state.
+   KConj: cuqi.experimental.mcmc.Conjugate on a Gaussian-Gamma pair: draw = (scripted standard Gamma variate) / rate,
+          rate read off the target.   KLrto: LinearRTO with the normal draw scripted to 0: the conditional mean. *)
+Inductive kind := KRec | KMH | KDirect | KNuts | KOpq | KConj | KLrto.
+
+(* numerical helpers on a log-density t (exact for the quadratic targets they are used on) *)
+Fixpoint bump (p : vec) (j : nat) (d : Q) : vec :=
+  match p, j with
+  | [], _ => []
+  | x :: r, O => (x + d) :: r
+  | x :: r, S j' => x :: bump r j' d
+  end.
+Definition zerov (n : nat) : vec := repeat 0 n.
+Definition gradq (t : vec -> Q) (h : Q) (p : vec) : vec :=
+  map (fun j => (t (bump p j h) - t (bump p j (- h))) / (2 * h)) (seq 0 (length p)).
+(* precision matrix -Hessian and gradient at 0 of a quadratic t in n variables, from values on the lattice h * {0,1,2}^n *)
+Definition hessq (t : vec -> Q) (h : Q) (n : nat) : list vec :=
+  map (fun j => map (fun k => - (t (bump (bump (zerov n) j h) k h) - t (bump (zerov n) j h) - t (bump (zerov n) k h) + t (zerov n)) / (h * h))
+                    (seq 0 n)) (seq 0 n).
+Definition grad0q (t : vec -> Q) (h : Q) (n : nat) : vec := gradq t h (zerov n).
+(* elimination without pivoting (the matrices are symmetric positive definite): rows paired with right-hand sides *)
+Fixpoint qsolve (n : nat) (rows : list (vec * Q)) : vec :=
+  match n, rows with
+  | S n', (a :: r, b) :: rest =>
+      let red := map (fun row => match row with
+                                 | (c :: r', b') => (map (fun xy => fst xy - (c / a) * snd xy) (combine r' r), b' - (c / a) * b)
+                                 | ([], b') => ([], b')
+                                 end) rest in
+      let xs := qsolve n' red in
+      ((b - fold_left (fun acc xy => acc + fst xy * snd xy) (combine r xs) 0) / a) :: xs
+  | _, _ => []
+  end.
+
+Record sst := mkS { s_kind : kind; s_pt : vec; s_cache : Q; s_grad : vec; s_scale : Q; s_acc : list Z;
                     s_tunes : list (nat * nat * nat); s_init : vec }.
 
 Definition set_pt (s : sst) (p : vec) (c : Q) (a : Z) : sst :=
-  mkS (s_kind s) p c (s_scale s) (s_acc s ++ [a]) (s_tunes s) (s_init s).
+  mkS (s_kind s) p c (s_grad s) (s_scale s) (s_acc s ++ [a]) (s_tunes s) (s_init s).
+Definition set_all (s : sst) (p : vec) (c : Q) (g : vec) (a : Z) : sst :=
+  mkS (s_kind s) p c g (s_scale s) (s_acc s ++ [a]) (s_tunes s) (s_init s).
 
 (* sampler.step() followed by sampler._acc.append(acc) *)
 Definition ctrans (_ : nat) (t : vec -> Q) (s : sst) (r : rnd) : sst :=
   match s_kind s with
-  | KRec | KNuts => set_pt s (r_vec r) (s_cache s) (r_acc r)
+  | KRec => set_pt s (r_vec r) (s_cache s) (r_acc r)
+  | KNuts | KOpq =>                   (* opaque move; afterwards the sampler caches logd and gradient at its new point *)
+      set_all s (r_vec r) (t (r_vec r)) (gradq t (s_scale s) (r_vec r)) (r_acc r)
+  | KConj =>                          (* t(p) = -rate * p + (terms cancelling in differences): rate = (t[p0] - t[2 p0]) / p0 *)
+      let p0 := match s_pt s with x :: _ => x | [] => 1 end in
+      let rate := (t [p0] - t [2 * p0]) / p0 in
+      set_pt s [match r_vec r with z :: _ => z | [] => 0 end / rate] (s_cache s) 1
+  | KLrto =>                          (* zero noise: the minimiser of the stacked least-squares problem = conditional mean *)
+      let n := length (s_pt s) in
+      set_pt s (qsolve n (combine (hessq t (s_scale s) n) (grad0q t (s_scale s) n))) (s_cache s) 1
   | KDirect =>                        (* test distribution: draw = z + (logd(1..1) - logd(0..0)) of the target it is *)
       let p0 := map (fun _ => 0) (s_pt s) in
       let p1 := map (fun _ => 1) (s_pt s) in
@@ -241,19 +286,21 @@ Definition ctrans (_ : nat) (t : vec -> Q) (s : sst) (r : rnd) : sst :=
    nothing is put back: history (_acc) starts again at [1]. *)
 Definition creinit (fresh : bool) (_ : nat) (t : vec -> Q) (s : sst) : sst :=
   match s_kind s with
-  | KMH => if fresh then mkS KMH (s_pt s) (t (s_pt s)) (s_scale s) (s_acc s) (s_tunes s) (s_init s) else s
-  | KNuts => mkS KNuts (s_pt s) (s_cache s) (s_scale s) [1%Z] (s_tunes s) (s_pt s)
+  | KMH => if fresh then mkS KMH (s_pt s) (t (s_pt s)) (s_grad s) (s_scale s) (s_acc s) (s_tunes s) (s_init s) else s
+  | KOpq => if fresh then mkS KOpq (s_pt s) (t (s_pt s)) (gradq t (s_scale s) (s_pt s)) (s_scale s) (s_acc s) (s_tunes s) (s_init s) else s
+  | KNuts => mkS KNuts (s_pt s) (t (s_pt s)) (gradq t (s_scale s) (s_pt s)) (s_scale s) [1%Z] (s_tunes s) (s_pt s)
   | _ => s
   end.
 
 (* the harness's samplers all tune the same way: log the call (skip_len, update_count, len(_acc) at that moment),
    halve `scale` *)
 Definition ctune (_ : nat) (skip cnt : nat) (s : sst) : sst :=
-  mkS (s_kind s) (s_pt s) (s_cache s) (s_scale s * (1 # 2)) (s_acc s) (s_tunes s ++ [(skip, cnt, length (s_acc s))]) (s_init s).
+  let sc := match s_kind s with KOpq | KConj | KLrto => s_scale s | _ => s_scale s * (1 # 2) end in   (* real samplers: s_scale is a model constant *)
+  mkS (s_kind s) (s_pt s) (s_cache s) (s_grad s) sc (s_acc s) (s_tunes s ++ [(skip, cnt, length (s_acc s))]) (s_init s).
 
 (* Sampler.initialize / ProposalBasedSampler.initialize on the first conditional *)
 Definition cinit (k : kind) (p : vec) (scale : Q) (t : vec -> Q) : sst :=
-  mkS k p (t p) scale [1%Z] [] p.
+  mkS k p (t p) (match k with KOpq | KNuts => gradq t scale p | _ => [] end) scale [1%Z] [] p.
 
 (* HybridGibbs.__init__: initial points (default ones(dim)), targets from the initial points, initialize() *)
 Definition ones (n : nat) : vec := repeat 1 n.
@@ -280,7 +327,8 @@ Definition tune_interval (freq : Q) (nb : nat) : nat :=
 (* ---- comparison with what the implementation did ---- *)
 (* observed at one sampler.step() call: block, current_samples, target.logd at the probe points, the sampler's
    current_point and (MH only) its cached current_target_logd, all read just before the transition *)
-Record oev := mkO { o_blk : nat; o_cur : list vec; o_probes : list Q; o_pt : vec; o_cache : option Q }.
+Record oev := mkO { o_blk : nat; o_cur : list vec; o_probes : list Q; o_pt : vec; o_cache : option Q;
+                    o_grad : option vec; o_gshape : option Q }.
 
 Section EvOk.
 Context {St : Type}.
@@ -329,6 +377,8 @@ Definition check_hybrid (fresh : bool) (jt : list vec -> Q) (kinds : list kind) 
 Definition cache_ok_ev (e : @ev vec Q sst) : bool :=
   match s_kind (e_s e) with
   | KMH => Qeq_bool (s_cache (e_s e)) (e_tgt e (s_pt (e_s e)))
+  | KOpq | KNuts => Qeq_bool (s_cache (e_s e)) (e_tgt e (s_pt (e_s e)))
+                    && ql_eqb (s_grad (e_s e)) (gradq (e_tgt e) (s_scale (e_s e)) (s_pt (e_s e)))
   | _ => true
   end.
 Definition cache_consistent (lg : list (@ev vec Q sst)) : bool := forallb cache_ok_ev lg.
@@ -358,23 +408,42 @@ Fixpoint combo (c : list Z) (v : list Q) : Q :=
 Fixpoint combo_abs (c : list Z) (v : list Q) : Q :=
   match c, v with k :: c', x :: v' => Qabs (inject_Z k * x) + combo_abs c' v' | _, _ => 0 end.
 
-(* one step() call of an opaque (not modelled) kernel: block, current_samples and start point EXACTLY, the target through
-   integer combinations of its values at the probe points, within tol relative to the size of the terms combined *)
-Definition ev_ok_tol (tol : Q) (probes : list (list vec)) (combos : list (list (list Z))) (e : @ev vec Q sst) (o : oev) : bool :=
-  Nat.eqb (e_blk e) (o_blk o) && qll_eqb (e_cur e) (o_cur o) && ql_eqb (s_pt (e_s e)) (o_pt o)
-  && let tv := map (e_tgt e) (nth (e_blk e) probes []) in
-     forallb (fun c => Qle_bool (Qabs (combo c (o_probes o) - combo c tv))
-                                (tol * (1 + combo_abs c (o_probes o) + combo_abs c tv)))
-             (nth (e_blk e) combos []).
+(* scale-free closeness of vectors: max |a_i - b_i| <= tol * (max |a_i| + max |b_i|) *)
+Definition vmaxabs (v : vec) : Q := fold_left (fun m x => if Qle_bool m (Qabs x) then Qabs x else m) v 0.
+Fixpoint vsub (a b : vec) : vec := match a, b with x :: a', y :: b' => (x - y) :: vsub a' b' | _, _ => [] end.
+Definition vclose (tol : Q) (a b : vec) : bool :=
+  Nat.eqb (length a) (length b) && Qle_bool (vmaxabs (vsub a b)) (tol * (vmaxabs a + vmaxabs b)).
+Definition vlclose (tol : Q) := all2 (vclose tol).
 
-Definition check_hybrid_tol (jt : list vec -> Q) (inits : list vec) (ns : list (option nat)) (sc : list (list (list rnd)))
+(* one step() call of a real sampler: block; current_samples and start point (close: the model computes the Conjugate /
+   LinearRTO draws itself, in exact arithmetic); the target through integer combinations of its values at the probe points;
+   the cached log-density (relative to the target's value at the first probe point: the model's joint omits terms that are
+   constant in the block) and cached gradient the sampler holds; the Gamma shape a Conjugate block hands to numpy *)
+Definition ev_ok_tol (tol : Q) (probes : list (list vec)) (combos : list (list (list Z))) (e : @ev vec Q sst) (o : oev) : bool :=
+  Nat.eqb (e_blk e) (o_blk o) && vlclose tol (e_cur e) (o_cur o) && vclose tol (s_pt (e_s e)) (o_pt o)
+  && (let tv := map (e_tgt e) (nth (e_blk e) probes []) in
+      forallb (fun c => Qle_bool (Qabs (combo c (o_probes o) - combo c tv))
+                                 (tol * (1 + combo_abs c (o_probes o) + combo_abs c tv)))
+              (nth (e_blk e) combos [])
+      && match o_cache o, o_probes o, tv with
+         | Some c, op0 :: _, t0 :: _ =>
+             Qle_bool (Qabs ((c - op0) - (s_cache (e_s e) - t0)))
+                      (tol * (1 + Qabs c + Qabs op0 + Qabs (s_cache (e_s e)) + Qabs t0))
+         | Some _, _, _ => false
+         | None, _, _ => true
+         end)
+  && match o_grad o with Some g => vclose tol (s_grad (e_s e)) g | None => true end
+  && match o_gshape o with Some sh => Qeq_bool sh (s_scale (e_s e)) | None => true end.
+
+Definition check_hybrid_tol (fresh : bool) (jt : list vec -> Q) (kinds : list kind) (inits : list vec) (scales : list Q)
+    (ns : list (option nat)) (sc : list (list (list rnd)))
     (ops : list op) (probes : list (list vec)) (combos : list (list (list Z))) (tol : Q)
     (olog : list oev) (ocur : list vec) (ostored : list (list vec)) (opts : list vec) : bool :=
-  let x := hybrid_run true jt (map (fun _ => KRec) inits) inits (map (fun _ => 1) inits) ns sc ops in
+  let x := hybrid_run fresh jt kinds inits scales ns sc ops in
   all2 (ev_ok_tol tol probes combos) (r_log x) olog
-  && qll_eqb (g_cur (r_st x)) ocur
-  && list_eqb qll_eqb (r_stored x) ostored
-  && all2 (fun s p => ql_eqb (s_pt s) p) (g_ss (r_st x)) opts.
+  && vlclose tol (g_cur (r_st x)) ocur
+  && all2 (vlclose tol) (r_stored x) ostored
+  && all2 (fun s p => vclose tol (s_pt s) p) (g_ss (r_st x)) opts.
 
 (* ---- legacy ---- *)
 Inductive lkind := LRec | LMH (scale : Q).
